@@ -3,6 +3,7 @@ import Driver.C15
 import Paroxy.Model.NodeFeature
 import Paroxy.Spec.NodeFeature
 import Paroxy.Model.WholeSpan
+import Paroxy.Spec.FlatTweaks
 open Lean Paroxy.Flat
 
 namespace Driver.C01
@@ -43,7 +44,8 @@ def spec : Handler := fun j => do
   let t' := tweak [] (onTheFly specCfg t)
   let ps := positionedNodes t'
   pure (Json.mkObj [("nodes", Json.arr (ps.map fun p => Json.arr #[strJ p.1, Json.num (p.2 : Nat)]).toArray),
-    ("wf", Json.bool (treeOk t'))])
+    ("wf", Json.bool (treeOk t')),
+    ("wf_pipeline", Json.bool (wfStages6 (onTheFly implCfg t) && treeOk (stage6 (onTheFly implCfg t))))])
 
 /-- `c01.whole`: the hand matcher of the `whole_span` pattern and its bindings. -/
 def whole : Handler := fun j => do
